@@ -1965,6 +1965,7 @@ insert_list:
     }
     void semaphore::try_resume(uint64_t cnt) {
         assert(cnt);
+        PHOTON_VERIF_LS(LS_SEM_RESUME, this, &splock, 0);
         while(true) {
             ScopedLockHead h(this);
             if (!h) break;
